@@ -7,6 +7,7 @@ use serde_json::{json, Value};
 use std::panic;
 
 mod bdd;
+mod cnf;
 mod dnnf;
 mod ff;
 mod table;
@@ -20,6 +21,7 @@ pub fn run_case(c: &Value) -> CaseResult {
         "table_seq" => table::run(c),
         "bdd_prog" => bdd::run(c),
         "dnnf_cond" => dnnf::run(c),
+        "cnf_eval" | "pm_ops" => cnf::run(c),
         _ => Err(format!("unknown case kind {kind}")),
     });
     match r {
@@ -67,6 +69,7 @@ fn main() {
                 "table" => table::candidates(seed),
                 "bdd" => bdd::candidates(&function, seed),
                 "dnnf" => dnnf::candidates(seed),
+                "cnf" => cnf::candidates(seed),
                 _ => vec![],
             };
             let mut tried = 0usize;
